@@ -126,7 +126,7 @@ def xyz_file_to_molecules(filename: str) -> Sequence["Molecule"]:
             atoms.append(Atom(atomic_symbol=symbol, x=x, y=y, z=z))
 
         molecule = Molecule(
-            atoms=atoms, solvent_name=title_line.get("solvent", None)
+            atoms=atoms, solvent_name=title_line.get("solvent_name", None)
         )
 
         _set_attr_from_title_line(molecule, "charge", title_line)
